@@ -7,8 +7,8 @@ use crate::util::*;
 use futures::{FutureExt, StreamExt};
 use litep2p::{
     protocol::notification::{
-        verif::{VerifNotification, VerifServiceCall},
-        NotificationError, NotificationEvent, NotificationHandle, ValidationResult,
+        verif::{VerifBounded, VerifPoll, VerifServiceCall},
+        NotificationError, NotificationEvent, NotificationHandle, NotificationSink, ValidationResult,
     },
     PeerId,
 };
@@ -37,6 +37,7 @@ struct IoState {
     shutdown_gated: bool,
     hs_pushed: bool,
     dropped: bool,
+    written: Vec<u8>,
 }
 
 #[derive(Clone, Default)]
@@ -71,10 +72,11 @@ impl AsyncRead for ScriptedIo {
 
 impl AsyncWrite for ScriptedIo {
     fn poll_write(self: Pin<&mut Self>, _: &mut Context<'_>, buf: &[u8]) -> Poll<io::Result<usize>> {
-        let s = self.0 .0.lock().unwrap();
+        let mut s = self.0 .0.lock().unwrap();
         if s.write_err {
             return Poll::Ready(Err(io::ErrorKind::BrokenPipe.into()));
         }
+        s.written.extend_from_slice(buf);
         Poll::Ready(Ok(buf.len()))
     }
     fn poll_flush(self: Pin<&mut Self>, _: &mut Context<'_>) -> Poll<io::Result<()>> {
@@ -108,6 +110,10 @@ impl IoCtl {
         s.read_buf.extend(HANDSHAKE.iter());
         s.hs_pushed = true;
     }
+    fn push_notification(&self) {
+        let mut s = self.0.lock().unwrap();
+        s.read_buf.extend([3u8, 7, 7, 7]);
+    }
     fn fail(&self) {
         let mut s = self.0.lock().unwrap();
         s.read_eof = true;
@@ -119,7 +125,11 @@ impl IoCtl {
 
 struct Run {
     peers: Vec<PeerId>,
-    notif: VerifNotification,
+    notif: VerifBounded,
+    /// lazy-user mode: the user only polls on kind 25, the event channel has `cap` slots
+    lazy: bool,
+    /// peer of the last scheduled event
+    last_peer: usize,
     handle: NotificationHandle,
     connected: [Option<usize>; NP],
     next_conn: usize,
@@ -129,7 +139,16 @@ struct Run {
     outbound: [Vec<IoCtl>; NP],
     /// carriers handed to `Connection` tasks (pair per opened stream)
     task_ios: [Vec<(IoCtl, IoCtl)>; NP],
+    /// outbound carriers of all stream periods in the order of the Opened events: (peer, carrier, bytes read so far)
+    periods: Vec<(usize, IoCtl, usize)>,
+    usink: [Option<NotificationSink>; NP],
+    /// return codes of send calls and frames seen on the wire in this step
+    rets: Vec<[u64; 3]>,
     events: Vec<[u64; 3]>,
+    /// real 5 s timers that expired (SleepAll)
+    real_fired: usize,
+    /// the case contains a SleepAll: hook-fired Timer events are skipped
+    no_hook_timers: bool,
 }
 
 fn newest_live(v: &[IoCtl]) -> Option<IoCtl> {
@@ -154,8 +173,17 @@ impl Run {
     /// Drain the user-side event stream (updates the handle's `peers` gate and its pending
     /// validations exactly as a user polling the handle would).
     fn drain_user(&mut self) -> usize {
+        self.poll_user(usize::MAX)
+    }
+
+    /// the user calls `handle.next()` until `max` events were returned or nothing is ready
+    fn poll_user(&mut self, max: usize) -> usize {
         let mut n = 0;
-        while let Some(Some(ev)) = self.handle.next().now_or_never() {
+        while n < max {
+            let ev = match self.handle.next().now_or_never() {
+                Some(Some(ev)) => ev,
+                _ => break,
+            };
             n += 1;
             match ev {
                 NotificationEvent::ValidateSubstream { peer, .. } => {
@@ -166,13 +194,6 @@ impl Run {
                     let i = self.pidx(&peer);
                     let d = format!("{direction:?}").starts_with("Outbound") as u64;
                     self.events.push([1, i as u64, d]);
-                    if i < NP {
-                        if let (Some(a), Some(b)) =
-                            (newest_live(&self.inbound[i]), newest_live(&self.outbound[i]))
-                        {
-                            self.task_ios[i].push((a, b));
-                        }
-                    }
                 }
                 NotificationEvent::NotificationStreamClosed { peer } => {
                     let i = self.pidx(&peer);
@@ -195,128 +216,64 @@ impl Run {
     /// `next_event` until no branch is ready.
     fn settle(&mut self) {
         for _ in 0..64 {
-            let done = self.notif.poll_tasks();
+            let done = self.notif.driver().poll_tasks();
             let drained = self.drain_user();
-            let stepped = self.notif.poll_event().is_some();
+            let stepped = self.notif.poll_event() == VerifPoll::Handled;
             if done == 0 && drained == 0 && !stepped {
+                self.register_new_tasks();
                 return;
             }
         }
         panic!("settle did not converge");
     }
 
-    fn apply(&mut self, kind: u64, p: usize, arg: u64) {
-        let peer = self.peers[p];
-        match kind {
-            0 => {
-                if self.connected[p].is_none() {
-                    let c = self.next_conn;
-                    self.next_conn += 1;
-                    self.connected[p] = Some(c);
-                    self.notif.inject_connection_established(peer, c);
-                }
-            }
-            1 => {
-                if let Some(c) = self.connected[p].take() {
-                    self.pending_sids[p].clear();
-                    self.notif.inject_connection_closed(peer, c);
-                }
-            }
-            2 => {
-                if let Some(c) = self.connected[p] {
-                    let ctl = IoCtl::default();
-                    self.inbound[p].push(ctl.clone());
-                    self.notif.inject_substream(peer, c, None, Box::new(ScriptedIo(ctl)));
-                }
-            }
-            3 => {
-                if let (Some(c), Some(sid)) = (self.connected[p], self.pending_sids[p].pop_front()) {
-                    let ctl = IoCtl::default();
-                    self.outbound[p].push(ctl.clone());
-                    self.notif.inject_substream(peer, c, Some(sid), Box::new(ScriptedIo(ctl)));
-                }
-            }
-            4 => {
-                if let (Some(_), Some(sid)) = (self.connected[p], self.pending_sids[p].pop_front()) {
-                    self.notif.inject_substream_open_failure(sid);
-                }
-            }
-            5 => self.notif.inject_dial_failure(peer),
-            6 => {
-                if self.notif.negotiating(&peer).0 {
-                    if let Some(io) = newest_live(&self.inbound[p]) {
-                        if arg == 0 {
-                            io.fail();
-                        } else {
-                            let pushed = io.0.lock().unwrap().hs_pushed;
-                            if !pushed {
-                                io.push_handshake();
-                            } else {
-                                io.0.lock().unwrap().flush_open = true;
-                            }
-                        }
-                    }
-                }
-            }
-            7 => {
-                if self.notif.negotiating(&peer).1 {
-                    if let Some(io) = newest_live(&self.outbound[p]) {
-                        if arg == 0 {
-                            io.fail();
-                        } else {
-                            io.0.lock().unwrap().flush_open = true;
-                            io.push_handshake();
-                        }
-                    }
-                }
-            }
-            8 => {
-                let r = if arg == 0 { ValidationResult::Reject } else { ValidationResult::Accept };
-                self.handle.send_validation_result(peer, r);
-            }
-            9 => self.notif.fire_timer(peer),
-            10 => {
-                let _ = self.handle.open_substream(peer).now_or_never();
-            }
-            11 => {
-                let _ = self.handle.close_substream(peer).now_or_never();
-            }
-            12 => self.handle.verif_force_close(peer),
-            13 | 16 => {
-                if let Some((a, b)) = self.task_ios[p].last().cloned() {
-                    if a.live() || b.live() {
-                        if arg != 0 || kind == 16 {
-                            a.0.lock().unwrap().shutdown_gated = true;
-                            b.0.lock().unwrap().shutdown_gated = true;
-                        }
-                        if kind == 13 {
-                            a.0.lock().unwrap().read_eof = true;
-                        }
-                    }
-                }
-            }
-            14 => {
-                for (a, b) in self.task_ios[p].iter() {
-                    a.0.lock().unwrap().shutdown_gated = false;
-                    b.0.lock().unwrap().shutdown_gated = false;
-                }
-            }
-            15 => {
-                if self.connected[p].is_some() {
-                    self.notif.kill_connection_channel(peer);
-                }
-            }
-            _ => {}
+    /// A Connection task was spawned (by the event for `last_peer`, possibly after the loop was parked):
+    /// its substreams are the newest live carriers of that peer.
+    fn register_new_tasks(&mut self) {
+        let spawned = self.notif.driver().tasks().0;
+        while self.periods.len() < spawned {
+            let i = self.last_peer;
+            let a = newest_live(&self.inbound[i]).unwrap_or_default();
+            let b = newest_live(&self.outbound[i]).unwrap_or_default();
+            let off = b.0.lock().unwrap().written.len();
+            self.periods.push((i, b.clone(), off));
+            self.task_ios[i].push((a, b));
         }
-        self.settle();
     }
 
-    fn observe(&mut self, out: &mut Vec<u64>) {
+    /// lazy mode: tasks and the loop run until nothing moves; the user does not poll
+    fn settle_lazy(&mut self) {
+        for _ in 0..64 {
+            let done = self.notif.driver().poll_tasks();
+            let stepped = self.notif.poll_event() == VerifPoll::Handled;
+            if done == 0 && !stepped {
+                self.register_new_tasks();
+                return;
+            }
+        }
+        panic!("settle did not converge");
+    }
+
+    fn apply_lazy(&mut self, kind: u64, p: usize, arg: u64) {
+        if kind == 25 {
+            self.poll_user(1);
+            self.settle_lazy();
+            return;
+        }
+        // nothing else is scheduled while the loop is parked; sends belong to the eager mode; events that
+        // touch a Connection task wait until the user has seen every NotificationStreamOpened
+        if self.notif.is_parked() || (20..=24).contains(&kind) || kind == 19 {
+            return;
+        }
+        self.apply(kind, p, arg);
+    }
+
+    fn observe_lazy(&mut self, cap: usize, out: &mut Vec<u64>) {
         out.push(self.events.len() as u64);
         for e in self.events.drain(..) {
             out.extend(e);
         }
-        let calls = self.notif.take_service_calls();
+        let calls = self.notif.driver().take_service_calls();
         out.push(calls.len() as u64);
         for c in calls {
             match c {
@@ -333,20 +290,225 @@ impl Run {
         }
         for p in 0..NP {
             let peer = self.peers[p];
-            let mut st: Vec<u64> = self.notif.peer_state(&peer).into_iter().map(|x| x as u64).collect();
+            out.push(self.handle.verif_is_open(&peer) as u64);
+            out.push(self.handle.verif_validation_pending(&peer) as u64);
+        }
+        out.push(self.handle.verif_event_queue_len().min(cap) as u64);
+        out.push(self.notif.is_parked() as u64);
+    }
+
+    fn apply(&mut self, kind: u64, p: usize, arg: u64) {
+        let peer = self.peers[p];
+        self.last_peer = p;
+        match kind {
+            0 => {
+                if self.connected[p].is_none() {
+                    let c = self.next_conn;
+                    self.next_conn += 1;
+                    self.connected[p] = Some(c);
+                    self.notif.driver().inject_connection_established(peer, c);
+                }
+            }
+            1 => {
+                if let Some(c) = self.connected[p].take() {
+                    self.pending_sids[p].clear();
+                    self.notif.driver().inject_connection_closed(peer, c);
+                }
+            }
+            2 => {
+                if let Some(c) = self.connected[p] {
+                    let ctl = IoCtl::default();
+                    self.inbound[p].push(ctl.clone());
+                    self.notif.driver().inject_substream(peer, c, None, Box::new(ScriptedIo(ctl)));
+                }
+            }
+            3 => {
+                if let (Some(c), Some(sid)) = (self.connected[p], self.pending_sids[p].pop_front()) {
+                    let ctl = IoCtl::default();
+                    self.outbound[p].push(ctl.clone());
+                    self.notif.driver().inject_substream(peer, c, Some(sid), Box::new(ScriptedIo(ctl)));
+                }
+            }
+            4 => {
+                if let (Some(_), Some(sid)) = (self.connected[p], self.pending_sids[p].pop_front()) {
+                    self.notif.driver().inject_substream_open_failure(sid);
+                }
+            }
+            5 => self.notif.driver().inject_dial_failure(peer),
+            6 => {
+                if self.notif.driver().negotiating(&peer).0 {
+                    if let Some(io) = newest_live(&self.inbound[p]) {
+                        if arg == 0 {
+                            io.fail();
+                        } else {
+                            let pushed = io.0.lock().unwrap().hs_pushed;
+                            if !pushed {
+                                io.push_handshake();
+                            } else {
+                                io.0.lock().unwrap().flush_open = true;
+                            }
+                        }
+                    }
+                }
+            }
+            7 => {
+                if self.notif.driver().negotiating(&peer).1 {
+                    if let Some(io) = newest_live(&self.outbound[p]) {
+                        if arg == 0 {
+                            io.fail();
+                        } else {
+                            io.0.lock().unwrap().flush_open = true;
+                            io.push_handshake();
+                        }
+                    }
+                }
+            }
+            8 => {
+                let r = if arg == 0 { ValidationResult::Reject } else { ValidationResult::Accept };
+                self.handle.send_validation_result(peer, r);
+            }
+            9 => {
+                if !self.no_hook_timers {
+                    self.notif.driver().fire_timer(peer)
+                }
+            }
+            20 => {
+                if self.usink[p].is_none() {
+                    self.usink[p] = self.handle.notification_sink(peer);
+                }
+            }
+            21 | 22 | 23 | 24 => {
+                let payload = vec![(arg >> 8) as u8, (arg & 255) as u8];
+                let code: Option<u64> = match kind {
+                    21 => Some(match self.handle.send_sync_notification(peer, payload) {
+                        Ok(()) => 0,
+                        Err(NotificationError::NoConnection) => 1,
+                        Err(NotificationError::ChannelClogged) => 2,
+                        Err(_) => 9,
+                    }),
+                    22 => Some(match self.handle.send_async_notification(peer, payload).now_or_never() {
+                        Some(Ok(())) => 0,
+                        Some(Err(litep2p::Error::PeerDoesntExist(_))) => 3,
+                        Some(Err(_)) => 9,
+                        None => 8,
+                    }),
+                    23 => self.usink[p].as_ref().map(|sink| match sink.send_sync_notification(payload) {
+                        Ok(()) => 0,
+                        Err(NotificationError::NoConnection) => 1,
+                        Err(NotificationError::ChannelClogged) => 2,
+                        Err(_) => 9,
+                    }),
+                    _ => self.usink[p].as_ref().map(|sink| match sink.send_async_notification(payload).now_or_never() {
+                        Some(Ok(())) => 0,
+                        Some(Err(litep2p::Error::PeerDoesntExist(_))) => 3,
+                        Some(Err(_)) => 9,
+                        None => 8,
+                    }),
+                };
+                if let Some(code) = code {
+                    self.rets.push([3, p as u64, code]);
+                }
+            }
+            19 => {
+                // every armed 5 s timer really expires
+                let before = self.notif.driver().timers_len();
+                std::thread::sleep(std::time::Duration::from_millis(5300));
+                self.settle();
+                self.real_fired += before - self.notif.driver().timers_len();
+            }
+            10 => {
+                let _ = self.handle.open_substream(peer).now_or_never();
+            }
+            11 => {
+                let _ = self.handle.close_substream(peer).now_or_never();
+            }
+            12 => self.handle.verif_force_close(peer),
+            13 | 16 | 17 | 18 => {
+                if let Some((a, b)) = self.task_ios[p].last().cloned() {
+                    if a.live() || b.live() {
+                        if kind == 17 || kind == 18 {
+                            // the remote sends a notification on the open stream
+                            a.push_notification();
+                        }
+                        if (arg != 0 && kind != 17) || kind == 16 {
+                            a.0.lock().unwrap().shutdown_gated = true;
+                            b.0.lock().unwrap().shutdown_gated = true;
+                        }
+                        if kind == 13 || kind == 18 {
+                            a.0.lock().unwrap().read_eof = true;
+                        }
+                    }
+                }
+            }
+            14 => {
+                for (a, b) in self.task_ios[p].iter() {
+                    a.0.lock().unwrap().shutdown_gated = false;
+                    b.0.lock().unwrap().shutdown_gated = false;
+                }
+            }
+            15 => {
+                if self.connected[p].is_some() {
+                    self.notif.driver().kill_connection_channel(peer);
+                }
+            }
+            _ => {}
+        }
+        if self.lazy {
+            self.settle_lazy();
+        } else {
+            self.settle();
+        }
+    }
+
+    fn observe(&mut self, out: &mut Vec<u64>) {
+        out.push(self.events.len() as u64);
+        for e in self.events.drain(..) {
+            out.extend(e);
+        }
+        // frames written to the outbound substreams of the stream periods since the last step
+        for (gid, (pi, io, off)) in self.periods.iter_mut().enumerate() {
+            let st = io.0.lock().unwrap();
+            while *off + 3 <= st.written.len() && st.written[*off] == 2 {
+                let m = ((st.written[*off + 1] as u64) << 8) | st.written[*off + 2] as u64;
+                self.rets.push([4, *pi as u64, gid as u64 * 1_000_000 + m]);
+                *off += 3;
+            }
+        }
+        let calls = self.notif.driver().take_service_calls();
+        out.push((calls.len() + self.rets.len()) as u64);
+        for r in self.rets.drain(..) {
+            out.extend(r);
+        }
+        for c in calls {
+            match c {
+                VerifServiceCall::Dial(peer) => out.extend([0, self.pidx(&peer) as u64, 0]),
+                VerifServiceCall::OpenSubstream(peer, sid) => {
+                    let i = self.pidx(&peer);
+                    if i < NP {
+                        self.pending_sids[i].push_back(sid);
+                    }
+                    out.extend([1, i as u64, sid as u64]);
+                }
+                VerifServiceCall::ForceClose(peer) => out.extend([2, self.pidx(&peer) as u64, 0]),
+            }
+        }
+        for p in 0..NP {
+            let peer = self.peers[p];
+            let mut st: Vec<u64> = self.notif.driver().peer_state(&peer).into_iter().map(|x| x as u64).collect();
             st.resize(5, 0);
             out.extend(st);
-            let (hi, ho) = self.notif.negotiating(&peer);
+            let (hi, ho) = self.notif.driver().negotiating(&peer);
             out.extend([hi as u64, ho as u64]);
             out.push(self.handle.verif_is_open(&peer) as u64);
             out.push(self.handle.verif_validation_pending(&peer) as u64);
         }
-        let po = self.notif.pending_outbound();
+        let po = self.notif.driver().pending_outbound();
         out.push(po.len() as u64);
         for (sid, peer) in po {
             out.extend([sid as u64, self.pidx(&peer) as u64]);
         }
-        out.push(self.notif.tasks().1 as u64);
+        out.push(self.notif.driver().tasks().1 as u64);
+        out.push((self.notif.driver().timers_len() + self.real_fired) as u64);
     }
 }
 
@@ -359,16 +521,29 @@ fn run_case(c: &[u64]) -> Option<Vec<u64>> {
         return None;
     }
     for i in 0..nops {
-        if c[4 + 3 * i] > 16 || c[5 + 3 * i] >= NP as u64 {
+        if c[4 + 3 * i] > 25 || c[5 + 3 * i] >= NP as u64 {
             return None;
         }
     }
     let peers: Vec<PeerId> = (0..NP).map(|_| PeerId::random()).collect();
     let dialable: Vec<PeerId> = (0..NP).filter(|i| mask >> i & 1 == 1).map(|i| peers[i]).collect();
-    let (notif, handle) = VerifNotification::new(auto_accept, should_dial, HANDSHAKE.to_vec(), &dialable);
+    let cap = (mask >> 3) as usize;
+    let lazy = cap > 0;
+    if lazy && (0..nops).any(|i| c[4 + 3 * i] == 19) || !lazy && (0..nops).any(|i| c[4 + 3 * i] == 25) {
+        return None;
+    }
+    let (notif, handle) = VerifBounded::new(
+        auto_accept,
+        should_dial,
+        HANDSHAKE.to_vec(),
+        &dialable,
+        if lazy { cap } else { 4096 },
+    );
     let mut run = Run {
         peers,
         notif,
+        lazy,
+        last_peer: 0,
         handle,
         connected: [None; NP],
         next_conn: 0,
@@ -376,19 +551,28 @@ fn run_case(c: &[u64]) -> Option<Vec<u64>> {
         inbound: Default::default(),
         outbound: Default::default(),
         task_ios: Default::default(),
+        periods: Vec::new(),
+        usink: Default::default(),
+        rets: Vec::new(),
         events: Vec::new(),
+        real_fired: 0,
+        no_hook_timers: (0..nops).any(|i| c[4 + 3 * i] == 19),
     };
     let mut out = vec![1u64];
     for i in 0..nops {
         let (kind, p, arg) = (c[4 + 3 * i], c[5 + 3 * i] as usize, c[6 + 3 * i]);
-        let ok = catch_unwind(AssertUnwindSafe(|| run.apply(kind, p, arg))).is_ok();
+        let ok = catch_unwind(AssertUnwindSafe(|| if lazy { run.apply_lazy(kind, p, arg) } else { run.apply(kind, p, arg) })).is_ok();
         if !ok {
             // debug_assert!(false) / Poisoned survivor: the protocol is stuck
             out.push(2);
             return Some(out);
         }
         out.push(1);
-        run.observe(&mut out);
+        if lazy {
+            run.observe_lazy(cap, &mut out);
+        } else {
+            run.observe(&mut out);
+        }
     }
     Some(out)
 }
@@ -413,10 +597,12 @@ fn random_op(rng: &mut Rng, slow: bool) -> (u64, u64) {
         92 => 12,
         93..=95 => 13,
         96 => if slow { 16 } else { 13 },
-        97..=98 => 14,
+        97 => 14,
+        98 => if rng.chance(60) { 17 } else { 18 },
+        99 => rng.pick(&[15u64, 20, 21, 22, 23, 24]),
         _ => 15,
     };
-    let arg = if kind == 13 { (slow && rng.chance(50)) as u64 } else { arg };
+    let arg = if kind == 13 || kind == 18 { (slow && rng.chance(50)) as u64 } else { arg };
     (kind, arg)
 }
 
@@ -458,7 +644,23 @@ fn peer_script(rng: &mut Rng, auto_accept: bool, slow: bool) -> Vec<(u64, u64)> 
                 s.extend([(6, 1), (7, 1)]);
             }
         }
+        for _ in 0..rng.below(3) {
+            s.push((17, 0));
+        }
+        if rng.chance(40) {
+            s.push((20, 0));
+        }
+        for _ in 0..rng.below(3) {
+            s.push((rng.pick(&[21u64, 22, 23, 24]), 0));
+        }
         // how the stream ends
+        if rng.chance(25) {
+            s.push((18, (slow && rng.chance(40)) as u64));
+            if rng.chance(50) {
+                s.push((14, 0));
+            }
+            continue;
+        }
         match rng.below(6) {
             0 => s.push((11, 0)),
             1 => s.push((13, 0)),
@@ -490,6 +692,7 @@ fn gen_case(rng: &mut Rng, thorough: bool) -> Vec<u64> {
         let p = rng.below(np as u64) as usize;
         if rng.chance(noise) {
             let (k, a) = random_op(rng, slow);
+            let a = if (21..=24).contains(&k) { ops.len() as u64 + 1 } else { a };
             ops.push([k, p as u64, a]);
             continue;
         }
@@ -501,6 +704,7 @@ fn gen_case(rng: &mut Rng, thorough: bool) -> Vec<u64> {
             scripts[p].swap(0, 1);
         }
         if let Some((k, a)) = scripts[p].pop_front() {
+            let a = if (21..=24).contains(&k) { ops.len() as u64 + 1 } else { a };
             ops.push([k, p as u64, a]);
         }
     }
@@ -509,6 +713,38 @@ fn gen_case(rng: &mut Rng, thorough: bool) -> Vec<u64> {
         ops.truncate(n);
     }
     let mut c = vec![auto_accept as u64, should_dial, mask, ops.len() as u64];
+    for o in ops {
+        c.extend(o);
+    }
+    c
+}
+
+/// lazy-user case: a small user event channel, the user polls the handle only now and then
+fn gen_lcase(rng: &mut Rng, thorough: bool) -> Vec<u64> {
+    let base = gen_case(rng, thorough);
+    let cap = rng.pick(&[1u64, 1, 2, 3, 5]);
+    let poll = rng.pick(&[10u64, 25, 40, 70]);
+    let nops = base[3] as usize;
+    let mut ops: Vec<[u64; 3]> = Vec::new();
+    for i in 0..nops {
+        let o = [base[4 + 3 * i], base[5 + 3 * i], base[6 + 3 * i]];
+        if (19..=24).contains(&o[0]) {
+            continue;
+        }
+        ops.push(o);
+        while rng.chance(poll) {
+            ops.push([25, 0, 0]);
+        }
+        if rng.chance(5) {
+            for _ in 0..rng.range(3, 12) {
+                ops.push([25, 0, 0]);
+            }
+        }
+    }
+    for _ in 0..rng.range(0, 10) {
+        ops.push([25, 0, 0]);
+    }
+    let mut c = vec![base[0], base[1], (base[2] & 7) | (cap << 3), ops.len() as u64];
     for o in ops {
         c.extend(o);
     }
@@ -536,6 +772,10 @@ pub fn main(args: &Args) {
             .unwrap_or(vec![0])
     };
     for c in stored.iter() {
+        let sleeps = c.len() >= 4 && (0..c[3] as usize).any(|i| c.get(4 + 3 * i) == Some(&19));
+        if sleeps && !thorough && args.str("replay").is_none() {
+            continue; // real 5 s sleeps: thorough tier only
+        }
         let t = run(c);
         out.emit(c, &t);
     }
@@ -544,7 +784,7 @@ pub fn main(args: &Args) {
     }
     for _ in 0..ncases {
         let mut r = rng.fork();
-        let c = gen_case(&mut r, thorough);
+        let c = if r.chance(25) { gen_lcase(&mut r, thorough) } else { gen_case(&mut r, thorough) };
         let t = run(&c);
         out.emit(&c, &t);
     }
